@@ -23,3 +23,15 @@ def register(m):
       "average_kinetic_energy = Average(symbols.kinetic_energy)\n_other = Average(clone_as_symbol(symbols.kinetic_energy))", "I4")
     m("C03", "c03-reorder-imports-ok", A, "from sympy import (Eq, solve)\n", "", "SILENT",
       extra=[(A, "from symplyphysics.core.expr_comparisons import expr_equals", "from symplyphysics.core.expr_comparisons import expr_equals\nfrom sympy import (Eq, solve)", 1)])
+
+
+_o3 = register
+
+
+def register(m):
+    _o3(m)
+    F = "symplyphysics/laws/optics/focal_length_of_a_concave_spherical_mirror.py"
+    m("C03", "c03-chained-subs-regression", F, "    },\n    simultaneous=True)", "    })", "I6")
+    m("C03", "c03-chained-subs-new-site", A, "    result_expr = result_force_expr.subs({mass: mass_, acceleration: acceleration_})",
+      "    result_expr = result_force_expr.subs({mass: acceleration, acceleration: mass}).subs({mass: mass_, acceleration: acceleration_})", "I6")
+    m("C03", "c03-sequential-subs-ok", F, "    },\n    simultaneous=True)", "    }, simultaneous=True).subs({})", "SILENT")
